@@ -362,24 +362,29 @@ def _ev(text, note=None, tech=None):
         "text": text,
         "note": note or ("Trusted: Lean kernel, axioms {propext, Classical.choice, Quot.sound}, the correspondence harness. Modelled, "
                          "not verified: the BDD/graph/attractor libraries (their assumed behaviour is compared with the real "
-                         "libraries on small graphs on every run). Theorems are about the model's cache-free evaluator; eval_node "
-                         "is tied to it by correspondence."),
+                         "libraries on small graphs on every run) and Rust's character classes (CharsOK, checked against std). The "
+                         "theorems cover the model of the whole pipeline (tokenizer, parser, preprocessing, duplicate marking, cached "
+                         "eval_node); the model is tied to /repo by the correspondence run."),
         "technique": tech or "Lean 4 proof (structural + fixed-point induction against a path semantics) + differential correspondence check",
     }
 
 MANIFEST_TEXT.update({
-    "C01": _ev("Lean 4 theorem evalPure_correct: on every graph (any number of states/colours), for every well-named formula, the "
-               "evaluator returns exactly the points of the unit set whose state satisfies the formula under a path-based reference "
-               "semantics (self-loops on steady states); the model's evaluator (with and without cache) is compared point-wise with "
-               "/repo on explicit small Kripke families on every run."),
-    "C02": _ev("Same theorem for extended formulae (wild-cards, restricted domains incl. colour-dependent/empty/nested), plus Lean proofs "
-               "of the three README equivalences for every body formula; oracle runs the equivalences through the public API."),
-    "C03": _ev("Lean theorems: every evaluated set is inside the current unit set (hence valid colours only, counts bounded), and the raw "
-               "result of a closed formula is independent of the spare variables; oracle checks both on the implementation's raw BDDs."),
+    "C01": _ev("Lean 4 theorems evalPure_correct and, end to end, formulaeDirty_correct: on every graph (any number of states/colours) and "
+               "for every list of input strings, the plain entry point of the model (tokenizer, parser, preprocessing, support check, "
+               "mark_duplicates, cached eval_node) returns the validation error or exactly the points of the unit set whose state "
+               "satisfies the formula under a path-based reference semantics (self-loops on steady states); the model is compared "
+               "point-wise with /repo on explicit small Kripke families on every run."),
+    "C02": _ev("Same for extended formulae (extendedDirty_correct: wild-cards, restricted domains incl. colour-dependent/empty/nested, any "
+               "context of variable-independent sets), plus Lean proofs of the three README equivalences for every body formula; "
+               "oracle runs the equivalences through the public API."),
+    "C03": _ev("Lean theorems: every set returned by the entry points is the unit set intersected with a satisfaction set (hence valid "
+               "colours only, counts bounded), and the raw result of a closed formula is independent of the spare variables; oracle "
+               "checks both on the implementation's raw BDDs."),
     "C13": _ev("Lean theorems: eval_ew/eval_aw denote exactly weak until on paths; EW = EU or EG; psi implies both; the defining "
                "equivalences are also evaluated through the tool."),
-    "C15": _ev("Lean theorems: for closed plain formulae the result is independent of the number of spare variable sets and sanitising "
-               "succeeds and equals the raw (state, colour) set; oracle compares raw/sanitised/k-variants and SymbolicAsyncGraph::new."),
+    "C15": _ev("Lean theorems: every semantically exact result of a closed formula (plain or extended, cached or not, in particular what "
+               "the string entry point returns) is independent of the number of spare variable sets, sanitising succeeds and equals "
+               "the raw (state, colour) set; transfer_from is modelled; oracle compares raw/sanitised/k-variants and SymbolicAsyncGraph::new."),
     "C18": _ev("Lean theorems: on the fragment, eval_node with steady set empty is literally equal to standard eval_node (any cache state); "
                "without steady states both compute the satisfying points."),
     "C20": _ev("Lean theorem: satisfaction at a colour mentions only that colour's transition system, hence colour slices agree between "
@@ -387,15 +392,16 @@ MANIFEST_TEXT.update({
 })
 
 MANIFEST_TEXT.update({
-    "C10": _ev("Lean theorem sat_subst: replacing any sub-formula by a wild-card that holds exactly where the sub-formula holds leaves "
-               "satisfaction unchanged, at any position and for any number of replacements; raw results have that property on valid "
-               "colours (from evalPure_correct). Oracle substitutes raw results through the public API, small and benchmark models."),
+    "C10": _ev("Lean theorems sat_subst / substitute_raw_result: replacing a closed sub-formula, at any position, by a fresh wild-card "
+               "bound to its raw result leaves the evaluated set unchanged on every graph. Oracle substitutes raw results through "
+               "the public API, small and benchmark models."),
     "C11": _ev("Lean theorems for arbitrary argument sets on arbitrary graphs: unfolding laws of EF/EG/EU/AU, dualities, monotonicity, "
                "EF/EU = (constrained) backward reachability, AG = forward-closed subset, steady states as self-loops. Oracle "
                "evaluates the laws and the library reachability functions on small and bundled benchmark models."),
     "C12": _ev("Lean theorems: the pattern matchers accept exactly the two patterns; the steady-state shortcut equals the generic "
                "evaluation of !{x}: AX {x} in any admissible universe (incl. domain scopes); the attractor shortcut equals !{x}: AG EF {x} "
-               "under the terminal-SCC specification of the external algorithm. Oracle compares patterns with pattern-defeating rewrites."),
+               "for the model's attractor computation, which is proved to return exactly the terminal SCCs. Oracle compares patterns "
+               "with pattern-defeating rewrites; the external library's result is compared with the model's on every run."),
 })
 
 _FRONT_NOTE = ("Trusted: Lean kernel, axioms {propext, Classical.choice, Quot.sound}, the correspondence harness. The model of the "
@@ -440,11 +446,13 @@ MANIFEST_TEXT.update({
 })
 
 MANIFEST_TEXT.update({
-    "C09": {"text": "Lean theorems about the tree-level canonisation pass: the renaming it returns is a function, total on the variables "
-                    "of the sub-formula and injective, with fresh canonical names in order of first occurrence. The remaining clauses of "
-                    "the property (canonical form <=> alpha-equivalence, idempotence, duplicate counters) are decided by exhaustive/"
-                    "random correspondence of the canoniser and duplicate-marker models with the code plus model-free oracles.",
-            "note": _FRONT_NOTE + " The char-level = tree-level bridge is correspondence-checked, not proved.",
+    "C09": {"text": "Lean theorems: the character-level canoniser of the code, on the rendering of any tree over valid identifiers, computes "
+                    "the rendering of the tree-level canonical form with the same renaming (canonChars_render); the renaming is a total "
+                    "injective function onto fresh names; canonisation is idempotent and invariant under injective renamings; for the "
+                    "keys the cache uses (at most one variable) equal canonical forms mean equal up to renaming; mark_duplicates reports "
+                    "a key with counter n only if n >= 1 and the key has at least n+1 occurrences. Only the multi-variable converse is "
+                    "left to the model-free alpha-equivalence oracle.",
+            "note": _FRONT_NOTE,
             "technique": "Lean 4 proof (state invariant of the canonisation pass) + differential correspondence check + independent alpha-equivalence / occurrence-count oracles"},
 })
 
@@ -452,12 +460,16 @@ MANIFEST_TEXT.update({
     "C04": _ev("Lean theorem evalNode_sound / cache_transparent: from EVERY evaluation context satisfying an explicit invariant (hence after "
                "any history, with any duplicate counters) the cached evaluator returns exactly the satisfaction set, keeps the invariant "
                "and restores the open scopes; batches are exact position by position, so order, repetition and sharing cannot matter. "
-               "Two facts about canonical keys are hypotheses (see evidence); the model's attractor computation is proved to return the terminal SCCs. Oracle: batch vs "
+               "The facts about canonical keys and the duplicate map this needs are derived from the canoniser / mark_duplicates models "
+               "(keySem_holds, keyWild_holds, dups_le_one, markDups_witness), the initial contexts of both entry points satisfy the "
+               "invariant, and treesDirty_sound / extendedDirty_sound are end-to-end statements. Oracle: batch vs "
                "single vs sharing disabled vs reordered vs repeated vs observed runs through the public API.",
                tech="Lean 4 proof (invariant over the cache state, induction over eval_node) + differential correspondence check + batch oracles"),
-    "C14": _ev("Lean theorems: no panic site of the evaluator model is reachable from preprocessed formulae the graph supports (corollary "
-               "of the cache invariant), and the model's entry point errs exactly for ill-scoped formulae / unknown propositions / too "
-               "few variable sets (with C07). Oracle: every string entry point under catch_unwind on hostile inputs.",
+    "C14": _ev("Lean theorems: for EVERY list of input strings (and every context of variable-independent sets) the model's entry points "
+               "return the validation error or a result, never a panic (formulaeDirty_correct, extendedDirty_correct, "
+               "no_panic_treesDirty: every panic site of the evaluator is an explicit outcome and unreachable under the cache "
+               "invariant); the plain entry point errs exactly for ill-scoped formulae / unknown propositions / too few variable "
+               "sets (with C07). Oracle: every string entry point under catch_unwind on hostile inputs.",
                tech="Lean 4 proof (panic sites as explicit outcomes, unreachable under the invariant) + differential correspondence check + catch_unwind oracle"),
 })
 
